@@ -275,16 +275,56 @@ def rule_r3(chk, p, t):
     if c23 is not None:
 
         def three():
-            cfg = cfg_of(c23)
-            rets = [n for n in cfg.nodes if n.kind == "return"]
-            require(len(rets) >= 1, "no return", c23.node)
-            txt = unparse(c23.node)
-            ok = "(1 - cos(sqrt_psi)) / psi" in txt.replace("(1.0 - ", "(1 - ") or "1 - cos(" in txt
-            ok = ok and ("cosh" in txt) and ("1 / 2" in txt or "0.5" in txt or "1.0 / 2" in txt) and ("1 / 6" in txt or "1.0 / 6" in txt)
-            if ok:
-                r.ok(c23.qualname, "Stumpff c2, c3: elliptic, hyperbolic and parabolic (1/2, 1/6) branches present", c23.loc())
+            from math import factorial
+            from fractions import Fraction
+
+            from rsa.terms import poly_in
+
+            prm = c23.params[0]
+            want = {
+                "c2": {"ell": f"(1 - cos(sqrt({prm}))) / {prm}", "hyp": f"(1 - cosh(sqrt(-{prm}))) / {prm}", "k0": 2},
+                "c3": {"ell": f"(sqrt({prm}) - sin(sqrt({prm}))) / sqrt({prm} ** 3)", "hyp": f"(sinh(sqrt(-{prm})) - sqrt(-{prm})) / sqrt(-({prm} ** 3))", "k0": 3},
+            }
+            bad = []
+            seen = {"c2": set(), "c3": set()}
+            n_asg = 0
+            for n in walk_no_nested(c23.node):
+                tg = n.targets[0] if isinstance(n, ast.Assign) else (n.target if isinstance(n, ast.AnnAssign) else None)
+                if not (isinstance(tg, ast.Name) and tg.id in want) or n.value is None:
+                    continue
+                n_asg += 1
+                w = want[tg.id]
+                e = inline_locals(c23, n.value)
+                fns = {call_name(x) for x in ast.walk(e) if isinstance(x, ast.Call)}
+                if fns & {"cos", "sin"}:
+                    if canon(e) == canon(ast.parse(w["ell"], mode="eval").body):
+                        seen[tg.id].add("elliptic")
+                    else:
+                        bad.append(f"elliptic {tg.id} = `{unparse(e)}` (expected `{w['ell']}`)")
+                elif fns & {"cosh", "sinh"}:
+                    if canon(e) == canon(ast.parse(w["hyp"], mode="eval").body):
+                        seen[tg.id].add("hyperbolic")
+                    else:
+                        bad.append(f"hyperbolic {tg.id} = `{unparse(e)}` (expected `{w['hyp']}`)")
+                else:
+                    poly = poly_in(e, prm)
+                    if poly is None:
+                        bad.append(f"{tg.id} = `{unparse(e)[:80]}` is neither a closed form nor a polynomial in {prm}")
+                        continue
+                    deg = max(poly) if poly else 0
+                    wrong = [k for k in range(deg + 1) if poly.get(k, 0) != Fraction((-1) ** k, factorial(2 * k + w["k0"]))]
+                    if wrong:
+                        k = wrong[0]
+                        bad.append(f"{tg.id} = `{unparse(e)[:80]}`: the coefficient of {prm}^{k} is {poly.get(k, 0)}, the Stumpff series has {Fraction((-1) ** k, factorial(2 * k + w['k0']))}")
+                    else:
+                        seen[tg.id].add("limit" if deg == 0 else f"series[{deg}]")
+            for nm in ("c2", "c3"):
+                if not {"elliptic", "hyperbolic"} <= seen[nm] or not (seen[nm] - {"elliptic", "hyperbolic"}):
+                    bad.append(f"{nm} lacks a branch (found {sorted(seen[nm])}; needs elliptic, hyperbolic and the limit 1/{2 if nm == 'c2' else 6} / series)")
+            if bad:
+                r.violation(c23.qualname, "stumpff:" + ";".join(b[:50] for b in bad), "the Stumpff functions c2, c3 deviate from their definition: " + "; ".join(bad), c23.loc())
             else:
-                r.violation(c23.qualname, "stumpff-branches", "the Stumpff functions lost one of their three branches (elliptic / hyperbolic / parabolic limit 1/2, 1/6)", c23.loc())
+                r.ok(c23.qualname, f"c2 {sorted(seen['c2'])}, c3 {sorted(seen['c3'])}: closed forms and exact series coefficients", c23.loc(), obligations=n_asg)
 
         r.guard(c23.qualname, three)
 
